@@ -23,7 +23,7 @@ func genEventPatterns(r *rand.Rand) []PatSpec {
 	pats := genPatterns(r, true)
 	for i := range pats {
 		p := &pats[i]
-		p.Apply = pick(r, "", "", "ok", "ok", "fail", "nochange")
+		p.Apply = pick(r, "", "", "ok", "ok", "fail", "failnotfound", "failreserr", "nochange")
 		p.Listen = r.IntN(4)
 		p.Nest = p.Listen > 0 && chance(r, 35)
 		if len(p.Calls) == 0 {
@@ -50,7 +50,7 @@ func genEventActions(r *rand.Rand, p *PatSpec, allowPanic bool, n int) []string 
 		if allowPanic && chance(r, 6) {
 			a = pick(r, "ev:change", "ev:delete", "ev:query", "ev:patch", "ev:a.b", "ev:", "add:-1", "rm:-1", "chg:x", "add:0", "rm:0")
 		}
-		if !allowPanic && p.Apply == "fail" {
+		if !allowPanic && strings.HasPrefix(p.Apply, "fail") {
 			switch {
 			case strings.HasPrefix(a, "chg:"), strings.HasPrefix(a, "add"), strings.HasPrefix(a, "rm"), a == "create", a == "delete":
 				a = "ev:safe"
@@ -188,7 +188,7 @@ func expectEventLog(p *PatSpec, pi int, script []string, id int, rname, inbox st
 	apply := func(what string) bool {
 		// returns false when the apply handler fails
 		log = append(log, "apply "+what+" "+rname)
-		return p.Apply != "fail"
+		return !strings.HasPrefix(p.Apply, "fail")
 	}
 	panicked := func() []string {
 		if isRequest && !replied {
